@@ -518,8 +518,9 @@ class PacketTransmitter(Elaboratable):
 
         # If we need to retry sending our packets, we'll need to reset our pending packet count.
         # Otherwise, we increment and decrement our "to send" counts normally.
+        # (A packet accepted from the protocol layer in the very same cycle still needs to be sent, too.)
         with m.If(self.retry_required):
-            m.d.ss += packets_to_send.eq(packets_awaiting_ack)
+            m.d.ss += packets_to_send.eq(packets_awaiting_ack + enqueue_send)
         with m.Elif(enqueue_send & ~dequeue_send):
             m.d.ss += packets_to_send.eq(packets_to_send + 1)
         with m.Elif(dequeue_send & ~enqueue_send):
@@ -605,6 +606,22 @@ class PacketTransmitter(Elaboratable):
         with m.If(self.retry_required):
             m.d.ss += retry_pending.eq(1)
 
+        # Keep track of whether our transmitter is working on a packet; and whether an LBAD has arrived since that
+        # packet was started. In the latter case our read pointer and counter have already been set up to start
+        # over from the oldest unacknowledged packet, so the packet in flight must not be counted as (re)transmitted.
+        packet_in_flight  = Signal()
+        packet_superseded = Signal()
+        with m.If(packet_tx.done):
+            m.d.ss += [
+                packet_in_flight   .eq(0),
+                packet_superseded  .eq(0)
+            ]
+        with m.Else():
+            with m.If(packet_tx.generate):
+                m.d.ss += packet_in_flight.eq(1)
+            with m.If(self.retry_required & (packet_in_flight | packet_tx.generate)):
+                m.d.ss += packet_superseded.eq(1)
+
 
         with m.FSM(domain="ss"):
 
@@ -615,7 +632,8 @@ class PacketTransmitter(Elaboratable):
                 # If we have packets to send, pass them to our transmitter.
                 with m.If(self.bringup_complete & (packets_to_send != 0)):
 
-                    with m.If(~retry_pending):
+                    # (An LBAD arriving right now counts as a pending retry, too.)
+                    with m.If(~retry_pending & ~self.retry_required):
                         # Wait until the packet is sent.
                         m.next = "WAIT_FOR_SEND"
 
@@ -646,8 +664,9 @@ class PacketTransmitter(Elaboratable):
                 m.d.comb += packet_tx.header.delayed.eq(1)
                 m.d.comb += packet_tx.generate.eq(~self.lrty_pending)
 
-                # We're done with this packet.
-                with m.If(packet_tx.done):
+                # We're done with this packet -- unless another LBAD arrived while we were retransmitting it (or arrives
+                # right now); in which case we start over from the oldest unacknowledged packet.
+                with m.If(packet_tx.done & ~packet_superseded & ~self.retry_required):
                     m.d.comb += dequeue_send.eq(1)
 
                     # If this was the last packet to retransmit, we're done handling this LBAD.
